@@ -43,6 +43,7 @@ harness!(fub_poll_c2_env, fub::step_poll(&StepCfg { cap: 2, selfwakes: 0, mon: f
 harness!(fub_poll_budget, fub::budget(100));
 harness!(fub_poll_budget_61, fub::budget(61));
 harness!(fub_poll_budget_3, fub::budget(3));
+harness!(fub_poll_budget_many, fub::budget_many());
 harness!(fub_push_c2, fub::step_push(&StepCfg { cap: 2, selfwakes: 0, mon: fub::M_ALL, env_budget: 0, inflight_ok: false, quiet: false, handles: false }));
 harness!(fub_push_c2_inflight, fub::step_push(&StepCfg { cap: 2, selfwakes: 0, mon: fub::M_ALL, env_budget: 0, inflight_ok: true, quiet: false, handles: false }));
 harness!(fub_push_c0, fub::step_push(&StepCfg { cap: 0, selfwakes: 0, mon: fub::M_ALL, env_budget: 0, inflight_ok: false, quiet: false, handles: false }));
@@ -53,13 +54,21 @@ harness!(fub_poll_c2_handles, fub::step_poll(&StepCfg { cap: 2, selfwakes: 0, mo
 harness!(fub_drop_c2, fub::step_drop(&StepCfg { cap: 2, selfwakes: 0, mon: fub::M_ALL, env_budget: 0, inflight_ok: false, quiet: false, handles: true }));
 
 // FuturesUnordered (groups of capacities 1,2 stand in for 32,64)
-harness!(fu_poll_12, fu::step_poll(&UCfg { caps: [1, 2, 0], n: 2, selfwakes: 1, quiet: false, cursor: 0 }));
-harness!(fu_poll_12_quiet, fu::step_poll(&UCfg { caps: [1, 2, 0], n: 2, selfwakes: 0, quiet: true, cursor: 0 }));
-harness!(fu_poll_12_c1, fu::step_poll(&UCfg { caps: [1, 2, 0], n: 2, selfwakes: 1, quiet: false, cursor: 1 }));
-harness!(fu_poll_12_c2, fu::step_poll(&UCfg { caps: [1, 2, 0], n: 2, selfwakes: 1, quiet: false, cursor: 2 }));
-harness!(fu_poll_2, fu::step_poll(&UCfg { caps: [2, 0, 0], n: 1, selfwakes: 1, quiet: false, cursor: 0 }));
-harness!(fu_push_12, fu::step_push(&UCfg { caps: [1, 2, 0], n: 2, selfwakes: 0, quiet: true, cursor: 0 }));
-harness!(fu_push_2, fu::step_push(&UCfg { caps: [2, 0, 0], n: 1, selfwakes: 0, quiet: true, cursor: 0 }));
+harness!(fu_poll_12, fu::step_poll(&UCfg { caps: [1, 2, 0], n: 2, selfwakes: 1, quiet: false, cursor: 0, qmax: [4, 4, 4] }));
+harness!(fu_poll_12_quiet, fu::step_poll(&UCfg { caps: [1, 2, 0], n: 2, selfwakes: 0, quiet: true, cursor: 0, qmax: [4, 4, 4] }));
+harness!(fu_poll_12_c1, fu::step_poll(&UCfg { caps: [1, 2, 0], n: 2, selfwakes: 1, quiet: false, cursor: 1, qmax: [4, 4, 4] }));
+harness!(fu_poll_12_c2, fu::step_poll(&UCfg { caps: [1, 2, 0], n: 2, selfwakes: 1, quiet: false, cursor: 2, qmax: [4, 4, 4] }));
+// cheaper cursor / group-list logic harnesses: only some groups have queued children
+harness!(fu_cur_12_c1, fu::step_poll(&UCfg { caps: [1, 2, 0], n: 2, selfwakes: 0, quiet: false, cursor: 1, qmax: [1, 1, 0] }));
+harness!(fu_cur_12_c0, fu::step_poll(&UCfg { caps: [1, 2, 0], n: 2, selfwakes: 0, quiet: false, cursor: 0, qmax: [1, 1, 0] }));
+harness!(fu_cur_124_c0, fu::step_poll(&UCfg { caps: [1, 2, 4], n: 3, selfwakes: 0, quiet: false, cursor: 0, qmax: [1, 0, 0] }));
+harness!(fu_cur_124_c2, fu::step_poll(&UCfg { caps: [1, 2, 4], n: 3, selfwakes: 0, quiet: false, cursor: 2, qmax: [0, 0, 1] }));
+// three groups, concrete inner states: group-list discipline (largest stays last) when a small group drains
+harness!(fu_rot_124_c0, fu::step_poll(&UCfg { caps: [1, 2, 4], n: 3, selfwakes: 0, quiet: true, cursor: 0, qmax: [8, 9, 9] }));
+harness!(fu_rot_124_c1, fu::step_poll(&UCfg { caps: [1, 2, 4], n: 3, selfwakes: 0, quiet: true, cursor: 1, qmax: [9, 8, 9] }));
+harness!(fu_poll_2, fu::step_poll(&UCfg { caps: [2, 0, 0], n: 1, selfwakes: 1, quiet: false, cursor: 0, qmax: [4, 4, 4] }));
+harness!(fu_push_12, fu::step_push(&UCfg { caps: [1, 2, 0], n: 2, selfwakes: 0, quiet: true, cursor: 0, qmax: [4, 4, 4] }));
+harness!(fu_push_2, fu::step_push(&UCfg { caps: [2, 0, 0], n: 1, selfwakes: 0, quiet: true, cursor: 0, qmax: [4, 4, 4] }));
 
 // FuturesOrderedBounded: symbolic 64-bit position counter (wrap + re-basing for every value)
 harness!(fob_poll_c2, fob::step_poll(&OCfg { cap: 2, max_parked: 1, selfwakes: 0 }));
@@ -68,6 +77,8 @@ harness!(fob_poll_c2_p2, fob::step_poll(&OCfg { cap: 2, max_parked: 2, selfwakes
 harness!(fob_push_c2, fob::step_push(&OCfg { cap: 2, max_parked: 1, selfwakes: 0 }));
 harness!(fob_new, fob::construct(2));
 harness!(fo_new, fob::construct_unbounded(2));
+harness!(fo_poll_c2, crate::fo::step_poll(&OCfg { cap: 2, max_parked: 1, selfwakes: 0 }));
+harness!(fo_observe_c2, crate::fo::step_observe_push(&OCfg { cap: 2, max_parked: 1, selfwakes: 0 }));
 // merges
 harness!(mb_poll_c2, mg::step_poll(&MCfg { cap: 2, selfwakes: 1, items: 1, quiet: false }));
 harness!(mb_poll_c2_quiet, mg::step_poll(&MCfg { cap: 2, selfwakes: 0, items: 1, quiet: true }));
@@ -75,6 +86,7 @@ harness!(mu_poll_12_c0, mg::step_poll_unbounded(&MUCfg { caps: [1, 2], cursor: 0
 harness!(mu_poll_12_c1, mg::step_poll_unbounded(&MUCfg { caps: [1, 2], cursor: 1, selfwakes: 0, items: 1 }));
 // buffered adapters
 harness!(ad_bu_n2, ad::step_buffer_unordered(&ACfg { n: 2, selfwakes: 0, parked: 0, max_remaining: 2 }));
+harness!(ad_bu_n3, ad::step_buffer_unordered(&ACfg { n: 3, selfwakes: 0, parked: 0, max_remaining: 3 }));
 harness!(ad_bu_n1, ad::step_buffer_unordered(&ACfg { n: 1, selfwakes: 1, parked: 0, max_remaining: 2 }));
 harness!(ad_tbu_n2, ad::step_try_buffer_unordered(&ACfg { n: 2, selfwakes: 0, parked: 0, max_remaining: 2 }));
 harness!(ad_fe_n1, ad::step_for_each(&ACfg { n: 1, selfwakes: 0, parked: 0, max_remaining: 1 }));
@@ -96,11 +108,13 @@ harness!(wl_shape0_c3, crate::wl::shape(3, 0));
 harness!(wl_shape1_c2, crate::wl::shape(2, 1));
 harness!(wl_shape2_c2, crate::wl::shape(2, 2));
 harness!(wl_shape2_c3, crate::wl::shape(3, 2));
+harness!(wl_shape3_c2, crate::wl::shape(2, 3));
 // the same shapes on the reference model (refinement: the model answers like the real list)
 harness!(wm_fifo_c2, crate::wl::fifo(2));
 harness!(wm_shape0_c2, crate::wl::shape(2, 0));
 harness!(wm_shape1_c2, crate::wl::shape(2, 1));
 harness!(wm_shape2_c2, crate::wl::shape(2, 2));
+harness!(wm_shape3_c2, crate::wl::shape(2, 3));
 #[cfg(all(kani, not(futures_buffered_verif_model)))]
 #[kani::proof]
 pub fn wl_vt_mirror() {
@@ -118,6 +132,7 @@ pub fn table() -> &'static [(&'static str, fn())] {
         ("fub_poll_budget", fub_poll_budget),
         ("fub_poll_budget_61", fub_poll_budget_61),
         ("fub_poll_budget_3", fub_poll_budget_3),
+        ("fub_poll_budget_many", fub_poll_budget_many),
         ("fub_push_c2", fub_push_c2),
         ("fub_push_c0", fub_push_c0),
         ("fub_wake_c2", fub_wake_c2),
@@ -130,6 +145,8 @@ pub fn table() -> &'static [(&'static str, fn())] {
         ("wl_shape1_c2", wl_shape1_c2),
         ("wl_shape2_c2", wl_shape2_c2),
         ("wl_shape2_c3", wl_shape2_c3),
+        ("wl_shape3_c2", wl_shape3_c2),
+        ("wm_shape3_c2", wm_shape3_c2),
         ("wm_fifo_c2", wm_fifo_c2),
         ("wm_shape0_c2", wm_shape0_c2),
         ("wm_shape1_c2", wm_shape1_c2),
@@ -137,16 +154,25 @@ pub fn table() -> &'static [(&'static str, fn())] {
         ("fu_poll_12", fu_poll_12),
         ("fu_poll_12_quiet", fu_poll_12_quiet),
         ("fu_poll_2", fu_poll_2),
+        ("fu_rot_124_c0", fu_rot_124_c0),
+        ("fu_rot_124_c1", fu_rot_124_c1),
+        ("fu_cur_12_c1", fu_cur_12_c1),
+        ("fu_cur_12_c0", fu_cur_12_c0),
+        ("fu_cur_124_c0", fu_cur_124_c0),
+        ("fu_cur_124_c2", fu_cur_124_c2),
         ("fob_poll_c2", fob_poll_c2),
         ("fob_poll_c2_p2", fob_poll_c2_p2),
         ("fob_push_c2", fob_push_c2),
         ("fob_new", fob_new),
         ("fo_new", fo_new),
+        ("fo_poll_c2", fo_poll_c2),
+        ("fo_observe_c2", fo_observe_c2),
         ("fob_poll_c2_p0", fob_poll_c2_p0),
         ("ja_poll_n2", ja_poll_n2),
         ("tja_poll_n2", tja_poll_n2),
         ("ad_bu_n2", ad_bu_n2),
         ("ad_bu_n1", ad_bu_n1),
+        ("ad_bu_n3", ad_bu_n3),
         ("ad_tbu_n2", ad_tbu_n2),
         ("ad_fe_n2", ad_fe_n2),
         ("ad_fe_n1", ad_fe_n1),
